@@ -271,6 +271,217 @@ theorem fno_stuck (net : Net n) (N : Nat) (hbal : balanced net N) (hac : acyclic
                     · exact ihr u.val (by have := hac v u hu; omega) u (by omega) rfl
                   exact hntm ⟨u, hu, hut, by omega, by omega⟩
 
+/-! ### arbitrary stream lengths: the only way to get stuck -/
+
+structure FInv0 (net : Net n) (s : FSt n) : Prop where
+  fc  : ∀ v, s.f v ≤ s.c v
+  sf  : ∀ v w, v ∈ net.ins w → s.f v ≤ s.s v w ∧ s.s v w ≤ s.f v + 1 ∧ s.s v w ≤ s.c v
+  rc  : ∀ u w, u ∈ net.ins w → s.c w ≤ s.r u w ∧ s.r u w ≤ s.c w + 1 ∧ s.r u w ≤ s.s u w
+  src : ∀ v, (net.ins v).isEmpty = true → s.c v ≤ net.src v
+
+theorem finv0_init (net : Net n) : FInv0 net (finit n) :=
+  ⟨fun _ => Nat.le_refl _, fun _ _ _ => ⟨Nat.le_refl _, Nat.zero_le _, Nat.le_refl _⟩,
+   fun _ _ _ => ⟨Nat.le_refl _, Nat.zero_le _, Nat.le_refl _⟩, fun _ _ => Nat.zero_le _⟩
+
+theorem fstep_inv0 (net : Net n) (s s' : FSt n) (l : FLbl n) (h : FInv0 net s) (hs : fstep net s l = some s') :
+    FInv0 net s' := by
+  cases l with
+  | recv w u =>
+    simp only [fstep] at hs
+    split at hs
+    · rename_i hg
+      simp only [Option.some.injEq] at hs; subst hs
+      obtain ⟨hu, _, hrc, hrs⟩ := hg
+      refine ⟨h.fc, h.sf, ?_, h.src⟩
+      intro u' w' hu'
+      by_cases he : u' = u ∧ w' = w
+      · obtain ⟨rfl, rfl⟩ := he
+        simp only [upd2_same]
+        omega
+      · simp only [upd2_other _ _ _ _ _ _ he]; exact h.rc u' w' hu'
+    · simp at hs
+  | create v =>
+    simp only [fstep] at hs
+    split at hs
+    · rename_i hg
+      simp only [Option.some.injEq] at hs; subst hs
+      obtain ⟨hnt, hg⟩ := hg
+      refine ⟨?_, ?_, ?_, ?_⟩
+      · intro w
+        by_cases hw : w = v
+        · subst hw; simp only [upd_same]; have := h.fc w; omega
+        · simp only [upd_other _ _ _ _ hw]; exact h.fc w
+      · intro x w hx
+        have := h.sf x w hx
+        by_cases hw : x = v
+        · subst hw; simp only [upd_same]; omega
+        · simp only [upd_other _ _ _ _ hw]; exact this
+      · intro u w hu
+        have := h.rc u w hu
+        by_cases hw : w = v
+        · subst hw
+          simp only [upd_same]
+          split at hg
+          · rename_i hsrc
+            have : net.ins w = [] := List.isEmpty_iff.1 hsrc
+            rw [this] at hu; simp at hu
+          · have := hg u hu; omega
+        · simp only [upd_other _ _ _ _ hw]; exact this
+      · intro w hw
+        by_cases he : w = v
+        · subst he
+          simp only [upd_same]
+          simp only [hw, if_true] at hg
+          omega
+        · simp only [upd_other _ _ _ _ he]; exact h.src w hw
+    · simp at hs
+  | send v w =>
+    simp only [fstep] at hs
+    split at hs
+    · rename_i hg
+      simp only [Option.some.injEq] at hs; subst hs
+      obtain ⟨hv, hfc, hsf, hroom⟩ := hg
+      refine ⟨h.fc, ?_, ?_, h.src⟩
+      · intro v' w' hv'
+        by_cases he : v' = v ∧ w' = w
+        · obtain ⟨rfl, rfl⟩ := he
+          simp only [upd2_same]; omega
+        · simp only [upd2_other _ _ _ _ _ _ he]; exact h.sf v' w' hv'
+      · intro v' w' hv'
+        have := h.rc v' w' hv'
+        by_cases he : v' = v ∧ w' = w
+        · obtain ⟨rfl, rfl⟩ := he
+          simp only [upd2_same]; omega
+        · simp only [upd2_other _ _ _ _ _ _ he]; exact this
+    · simp at hs
+  | forward v =>
+    simp only [fstep] at hs
+    split at hs
+    · rename_i hg
+      simp only [Option.some.injEq] at hs; subst hs
+      obtain ⟨hfc, hall⟩ := hg
+      refine ⟨?_, ?_, h.rc, h.src⟩
+      · intro w
+        by_cases hw : w = v
+        · subst hw; simp only [upd_same]; omega
+        · simp only [upd_other _ _ _ _ hw]; exact h.fc w
+      · intro x w hx
+        have := h.sf x w hx
+        by_cases hw : x = v
+        · subst hw
+          simp only [upd_same]
+          have := hall w ((mem_outs net x w).2 hx)
+          omega
+        · simp only [upd_other _ _ _ _ hw]; exact this
+    · simp at hs
+  | terminate v =>
+    simp only [fstep] at hs
+    split at hs
+    · simp only [Option.some.injEq] at hs; subst hs
+      exact ⟨h.fc, h.sf, h.rc, h.src⟩
+    · simp at hs
+
+theorem frun_inv0 (net : Net n) (ls : List (FLbl n)) :
+    ∀ s s', FInv0 net s → frun net s ls = some s' → FInv0 net s' := by
+  induction ls with
+  | nil => intro s s' h hr; simp [frun] at hr; subst hr; exact h
+  | cons l ls ih =>
+    intro s s' h hr
+    simp only [frun] at hr
+    split at hr
+    · simp at hr
+    · rename_i s1 h1
+      exact ih s1 s' (fstep_inv0 net s s1 l h h1) hr
+
+/-- whatever the stream lengths: if nothing can move and some process has not returned, then some unreturned
+process `v` is blocked sending to a consumer `w` that has returned and left at least `B` of `v`'s items unread -/
+theorem fstuck_root_cause (net : Net n) (hac : acyclic net) (hB : 1 ≤ net.B) (s : FSt n) (h : FInv0 net s)
+    (hst : fstuck net s) :
+    ∀ v0, s.term v0 = false →
+      ∃ v w, v ∈ net.ins w ∧ s.term v = false ∧ s.term w = true ∧ s.r v w + net.B ≤ s.s v w := by
+  suffices H : ∀ (k r : Nat) (v : Fin n), s.f v = k → v.val = r → s.term v = false →
+      ∃ v w, v ∈ net.ins w ∧ s.term v = false ∧ s.term w = true ∧ s.r v w + net.B ≤ s.s v w from
+    fun v hv => H _ _ v rfl rfl hv
+  intro k
+  induction k using Nat.strongRecOn with
+  | _ k ihk =>
+    intro r
+    induction r using Nat.strongRecOn with
+    | _ r ihr =>
+      intro v hk hr hterm
+      by_cases hlt : s.f v < s.c v
+      · have hf := hst (.forward v)
+        simp only [fstep] at hf
+        split at hf
+        · simp at hf
+        · rename_i hnf
+          simp only [canForward, hlt, true_and] at hnf
+          have : ∃ w ∈ outs net v, s.s v w ≠ s.f v + 1 := by
+            apply Classical.byContradiction
+            intro hno
+            apply hnf
+            intro w hw
+            apply Classical.byContradiction
+            intro hne
+            exact hno ⟨w, hw, hne⟩
+          obtain ⟨w, hw, hne⟩ := this
+          have hvw : v ∈ net.ins w := (mem_outs net v w).1 hw
+          have hsf := h.sf v w hvw
+          have hsv : s.s v w = s.f v := by omega
+          have hsend := hst (.send v w)
+          simp only [fstep] at hsend
+          split at hsend
+          · simp at hsend
+          · rename_i hns
+            simp only [canSend, hvw, hlt, hsv, true_and] at hns
+            have hrc := h.rc v w hvw
+            cases hwt : s.term w with
+            | true => exact ⟨v, w, hvw, hterm, hwt, by omega⟩
+            | false => exact ihk (s.f w) (by have := h.fc w; omega) _ w rfl rfl hwt
+      · have hcf : s.c v = s.f v := by have := h.fc v; omega
+        have hc := hst (.create v)
+        have ht := hst (.terminate v)
+        simp only [fstep] at hc ht
+        split at hc
+        · simp at hc
+        · rename_i hnc
+          split at ht
+          · simp at ht
+          · rename_i hntm
+            simp only [canCreate, hterm, true_and] at hnc
+            simp only [canTerm, hterm, hcf, true_and] at hntm
+            by_cases hsrc : (net.ins v).isEmpty = true
+            · simp only [hsrc, if_true] at hnc hntm
+              have := h.src v hsrc
+              omega
+            · simp only [hsrc] at hnc hntm
+              simp only [Bool.false_eq_true, if_false] at hnc hntm
+              have : ∃ u ∈ net.ins v, s.r u v ≠ s.c v + 1 := by
+                apply Classical.byContradiction
+                intro hno
+                apply hnc
+                intro u hu
+                apply Classical.byContradiction
+                intro hne
+                exact hno ⟨u, hu, hne⟩
+              obtain ⟨u, hu, hne⟩ := this
+              have hrc := h.rc u v hu
+              have hru : s.r u v = s.c v := by omega
+              have hrecv := hst (.recv v u)
+              simp only [fstep] at hrecv
+              split at hrecv
+              · simp at hrecv
+              · rename_i hnr
+                simp only [canRecv, hu, hterm, hru, true_and] at hnr
+                have hsf := h.sf u v hu
+                have hsu : s.s u v = s.c v := by omega
+                cases hut : s.term u with
+                | true => exact absurd ⟨u, hu, hut, by omega, by omega⟩ hntm
+                | false =>
+                  by_cases hlt2 : s.f u < s.f v
+                  · exact ihk (s.f u) (by omega) _ u rfl rfl hut
+                  · exact ihr u.val (by have := hac v u hu; omega) u (by omega) rfl hut
+
 /-! ### every run is finite -/
 
 def w1 (N : Nat) (s : FSt n) (v : Fin n) : Nat := (N - s.c v) + (N - s.f v) + (if s.term v then 0 else 1)
